@@ -449,6 +449,31 @@ def rule_tables(c: Ctx) -> RuleResult:
               "equals the 32 ASCII punctuation characters" if ok else
               f"differs from ASCII punctuation: missing {miss} extra {extra} - a backslash before such a character is literal in one "
               f"context and an escape in another")
+    # numeric character references are recognised whatever the case of the `x` marker and of the hex digits, in both places
+    # that decode them (the inline rule; unescapeAll for titles, destinations and info strings).  Decided on the regex constants:
+    # the patterns are handed to the `re` engine on a fixed probe set (no code of the repository runs).
+    import re as _re
+    probes = ["#35", "#x2a", "#x2A", "#X2a", "#X2A"]
+    for rel, why in (("common/utils.py", "unescapeAll / replaceEntityPattern"), ("rules_inline/entity.py", "the inline entity rule")):
+        pats = []
+        for (m, name, pat, flags, node) in c.p.regex_constants():
+            if m.rel == rel and _literal_hash(pat):
+                try:
+                    pats.append((name, _re.compile(pat, flags)))
+                except _re.error:
+                    pass
+        if not pats:
+            raise AnchorError(f"{rel}: no regular expression for numeric character references found")
+        missed = []
+        for pr in probes:
+            cands = [pr, "&" + pr + ";", pr + ";"]
+            if not any(rx.fullmatch(x) or (rx.match(x) and rx.match(x).end() == len(x)) for (_, rx) in pats for x in cands):
+                missed.append("&" + pr + ";")
+        r.add(f"numeric-ref-case|{rel}", f"markdown_it/{rel}:0", rel, ", ".join(n_ or "?" for n_, _ in pats)[:70],
+              "violation" if missed else "discharged",
+              (f"{why} does not recognise {missed}: a reference written with an upper-case X or upper-case hex digits stays undecoded in "
+               f"this context while the other contexts decode it") if missed else
+              "decimal and hexadecimal references are matched in either case (probe set " + ", ".join("&" + p_ + ";" for p_ in probes) + ")")
     # producers
     sites = [ts for ts in token_sites(c) if ts.via.startswith("push")]
     for f_short in ("escape", "entity"):
@@ -484,6 +509,29 @@ def rule_tables(c: Ctx) -> RuleResult:
               "the token carries the literal as content" if okc else f"{f_short} pushes the placeholder without content: the character is dropped")
     r.floor = 8
     return r
+
+
+def _literal_hash(pat: str) -> bool:
+    """The pattern requires a literal `#` (outside any character class): it is about numeric references specifically."""
+    import re._parser as sp          # type: ignore[import-not-found]
+    try:
+        tree = sp.parse(pat)
+    except Exception:          # noqa: BLE001
+        return False
+
+    def walk(seq) -> bool:
+        for op, av in seq:
+            name = str(op)
+            if name == "LITERAL" and av == 0x23:
+                return True
+            if name == "SUBPATTERN" and walk(av[3]):
+                return True
+            if name == "BRANCH" and any(walk(a) for a in av[1]):
+                return True
+            if name in ("MAX_REPEAT", "MIN_REPEAT") and walk(av[2]):
+                return True
+        return False
+    return walk(tree)
 
 
 def _reach_nd(c: Ctx, f: Func) -> set[Func]:
